@@ -54,6 +54,10 @@ MCInit ==
            input = [MkInput(ptr, 2, <<None, None, None>>, None, "cdecl", "fastcall", TRUE, <<>>, FALSE)
                       EXCEPT !.mods[1].defs[1].vft.funcs[2].xattrs = IF onV THEN <<BogusCC>> ELSE <<>>,
                              !.mods[1].impls[1].funcs[1].xattrs = IF onV THEN <<>> ELSE <<BogusCC>>]
+     (* an unknown convention on an impl function whose name starts with an underscore (such functions get no wrapper) *)
+     \/ \E ptr \in Ptrs :
+           input = [MkInput(ptr, 1, <<None, None, None>>, None, "", "pascal", TRUE, <<>>, FALSE)
+                      EXCEPT !.mods[1].impls[1].funcs[1].name = "_h"]
      (* the convention sweep: every name on the slot and on the wrapper, the other dimensions at rest *)
      \/ \E ptr \in Ptrs, cc \in SweepCCs \cup {""}, icc \in SweepCCs \cup {""}, recv \in BOOLEAN :
            input = MkInput(ptr, 2, <<None, None, None>>, None, cc, icc, recv, <<>>, FALSE)
